@@ -1,5 +1,6 @@
 SPECIFICATION JSpec
 CONSTANTS
+    MaxBarriers = 0
     Inputs <- MCInputsQuick
     Configs <- MCConfigsQuick
 INVARIANTS
